@@ -561,6 +561,11 @@ class BasicContiguousVector<cntgs::Options<Option...>, Parameter...>
             {
                 return false;
             }
+            if (size() != other.size())
+            {
+                // cannot be told from the bytes when the elements are empty (all FixedSize parameters of size 0)
+                return false;
+            }
             return detail::trivial_equal(data_begin(), data_end(), other.data_begin(), other.data_end());
         }
         else
@@ -582,6 +587,11 @@ class BasicContiguousVector<cntgs::Options<Option...>, Parameter...>
             if (other.empty())
             {
                 return false;
+            }
+            if (data_begin() == data_end() && other.data_begin() == other.data_end())
+            {
+                // all elements are empty (all FixedSize parameters of size 0): only the number of elements differs
+                return size() < other.size();
             }
             return detail::trivial_lexicographical_compare(data_begin(), data_end(), other.data_begin(),
                                                            other.data_end());
